@@ -31,7 +31,7 @@ KNOWN = os.path.join(VERIF, "known_findings.json")
 ALL_IDS = ["C%02d" % i for i in range(1, 21)]
 
 
-class CaseTimeout(Exception):
+class CaseTimeout(BaseException):
     pass
 
 
@@ -249,6 +249,8 @@ def run_check(pid, tier, seed, jobs, limit=None):
         reasons.append("%d worker shards failed: %s" % (len(shard_fail), shard_fail[0][1]))
     if missing:
         reasons.append("%d cases never reported" % len(missing))
+    for idx, why in inconcl[:5]:
+        print("  inconclusive case %d: %s | %s" % (idx, why, dumps(cases[idx])[:300]))
     if len(inconcl) > max(2, 0.02 * ncases):
         reasons.append("%d cases inconclusive (timeouts)" % len(inconcl))
     reasons += floor_fail
